@@ -278,10 +278,12 @@ Hdr(k, v) == [k |-> k, v |-> v]
 NoFault == [at |-> 0, kind |-> ""]
 OkCReply == [mode |-> "ok", status |-> 200]
 (* seg: offsets (relative to the end of the header block) at which the transport cuts the reply into separate    *)
-(* reads; tail: frames [op, fin, len] glued to the reply.                                                         *)
+(* reads; tail: frames [op, fin, len] glued to the reply; clx (with cl): how much MORE than the blen bytes it     *)
+(* sends the server declares in Content-Length before it closes ("0", a decimal number, or "max" = the declared  *)
+(* value is 2^63-1): blen is always what the transport delivers.                                                  *)
 StdReply(status, upg, con, acc, blen, cl, ext) ==
   [mode |-> "std", status |-> status, upg |-> upg, con |-> con, acc |-> acc, blen |-> blen, cl |-> cl, ext |-> ext,
-   seg |-> << >>, tail |-> << >>]
+   seg |-> << >>, tail |-> << >>, clx |-> "0"]
 Fr(op, fin, len) == [op |-> op, fin |-> fin, len |-> len]
 GoodReply == StdReply(101, << << "websocket" >> >>, << << "Upgrade" >> >>, "ok", 0, FALSE, "none")
 URL(scheme, user, hform, host, bare, port, path, hasq, query, frag) ==
